@@ -42,13 +42,18 @@ def draw_decls(rng, layout, bounds_mode="mixed"):
         return {"lb": lb, "ub": lb + 0.5 + abs(q(rng, 0, 3))}
 
     d = []
+
+    def dom():
+        r = rng.random()
+        return {"dom": "binary"} if r < 0.12 else ({"dom": "integer"} if r < 0.2 else {})
+
     if layout == "single-vector":
         d.append({"k": "vec", "name": "x", "n": rng.randint(2, 5), **bnd()})
     elif layout == "big-vector":
         d.append({"k": "vec", "name": "x", "n": rng.randint(11, 13), **bnd()})
     elif layout == "vector+scalars":
-        d.append({"k": "var", "name": rng.choice(["z", "x10", "a"]), **bnd()})
-        d.append({"k": "vec", "name": "x", "n": rng.randint(2, 4), **bnd()})
+        d.append({"k": "var", "name": rng.choice(["z", "x10", "a"]), **bnd(), **dom()})
+        d.append({"k": "vec", "name": "x", "n": rng.randint(2, 4), **bnd(), **dom()})
         if rng.random() < 0.5:
             d.append({"k": "var", "name": rng.choice(["x2", "b", "y_1"]), **bnd()})
     elif layout == "two-vectors":
@@ -59,7 +64,7 @@ def draw_decls(rng, layout, bounds_mode="mixed"):
         d.append({"k": "mat", "name": "A", "r": 2, "c": rng.randint(2, 3), **bnd()})
     else:
         for nm in rng.sample(["x1", "x10", "x2", "b", "a", "z9", "z10"], rng.randint(2, 4)):
-            d.append({"k": "var", "name": nm, **bnd()})
+            d.append({"k": "var", "name": nm, **bnd(), **dom()})
     return d
 
 
@@ -386,7 +391,27 @@ def draw_lp(rng, layout=None, kind="any", risky=True, max_rows=5):
             cons.append(["rel", s, W.affine(coef, 0.0, mention_all=True), ["raw", rv, "float"], "direct"])
             rows.append({"coef": dict(coef), "sense": s, "rhs": rv})
     obj = W.affine(c, c0, mention_all=(rng.random() < 0.3))
+    # bounds assigned on the Variable objects after construction (v.lb = ..., v.ub = ...): fixing a binary decision at 0 / 1,
+    # tightening a box.  Ground truth = the edited bounds.
+    bound_edits = {}
+    if kind in ("any", "optimal") and rng.random() < 0.35:
+        info2 = R.Decls(decls).var_info()
+        for nm in rng.sample(names, rng.randint(1, min(2, len(names)))):
+            lb, ub, dom = info2[nm]
+            if dom == "binary":
+                v = float(rng.choice([0, 1]))
+                if feas is not None:
+                    v = float(min(1.0, max(0.0, round(feas[nm]))))
+                    if abs(v - feas[nm]) > 1e-12:
+                        continue
+                bound_edits[nm] = [v, v]
+            elif feas is not None:
+                bound_edits[nm] = [feas[nm] - 0.25, feas[nm] + 0.5]
+            else:
+                lo = lb if lb is not None else -1.0
+                bound_edits[nm] = [lo, lo + 1.0 + abs(q(rng, 0, 2))]
     return {
+        "bound_edits": bound_edits,
         "decls": decls,
         "layout": layout,
         "kind": kind,
